@@ -3,6 +3,7 @@ Translation equivariance of the geometry kernel: every kernel function commutes 
 position arguments by the same vector (exactly, over `Rat`), because every guard compares differences.
 -/
 import Capella.Lemmas.GeomBasic
+import Capella.Lemmas.GeomLit
 
 namespace Capella.Geom
 
@@ -207,19 +208,17 @@ theorem snapTree_translate (b : Box) (p d v : V2) :
 /-- `Box.vector_snap` commutes with translation, for every style, port or not -/
 theorem vectorSnap_translate (b : Box) (p s v : V2) (st : Style) :
     vectorSnap (b.translate v) (p + v) (s + v) st = mv v (vectorSnap b p s st) := by
+  rw [vectorSnap_eq, vectorSnap_eq]
   cases st with
   | oblique =>
-    unfold vectorSnap
     simp only [V2.add_right_cancel_iff]
     split_ifs
     · exact snapClosest_translate b p v
     · exact snapOblique_translate b p s v
   | manhattan =>
-    unfold vectorSnap
     simp only [V2.add_sub_add]
     exact snapManhattan_translate b p (p - s) v
   | tree =>
-    unfold vectorSnap
     simp only [V2.add_sub_add, snapTree_translate, mv_ok]
 
 end Capella.Geom
